@@ -146,6 +146,23 @@ def gen_cases(rng, tier):
         m1, m2 = rng.choice([1, 10]), rng.choice([1, 100])
         cases.append({'k': 'r', 'a': [u, m1, t, _spell(rng, rate * m1)],
                       'b': [t, m2, u, _spell(rng, m2 / rate)]})
+    # ALIASES: a second unit with exactly the scale of the reference unit (or of another
+    # unit) of a user type - equal units, equal quantities, so equal hashes (seeded C19-j:
+    # base units hashed by their symbol, the alias by its scale).  Drawn after the older
+    # families so that those keep their random streams.
+    for _ in range(16 if tier == 'quick' else 160):
+        world = W.random_world(rng, n_classes=1, quantized_p=0.0)
+        cls = world['classes'][0]
+        ref = cls['ref']
+        base = rng.choice([ref, ref] + [u['sym'] for u in cls['units'] if not u.get('via')])
+        alias = ref[:-1] + 'al'
+        cls['units'].append({'sym': alias, 'factor': '1/1', 'fkind': rng.choice(['int', 'dec']),
+                             'base': base})
+        for u, v in ((alias, base), (base, alias)):
+            cases.append({'k': 'u', 'world': world, 'u': u, 'v': v})
+        a = rng.choice(base_amts)
+        cases.append({'k': 'q', 'world': world, 'x': ['q', _spell(rng, a), alias],
+                      'y': ['q', _spell(rng, a), base]})
     return cases
 
 
